@@ -16,7 +16,7 @@ COMMON_ASSUMPTIONS = [
 # (profile, sequences, ops per sequence)
 Q = lambda *l: list(l)
 PROPS = {
-    "C01": dict(level="proof", quick=Q(("moves", 60, 150), ("mixed", 40, 150), ("pointers", 10, 150), ("events", 30, 150)), thorough=Q(("moves", 1500, 500), ("mixed", 800, 500), ("batch", 400, 500), ("pointers", 200, 300), ("relations", 400, 400))),
+    "C01": dict(level="proof", quick=Q(("moves", 60, 150), ("mixed", 40, 150), ("pointers", 10, 150), ("events", 30, 150), ("locks", 40, 200)), thorough=Q(("moves", 1500, 500), ("mixed", 800, 500), ("batch", 400, 500), ("pointers", 200, 300), ("relations", 400, 400))),
     "C02": dict(level="proof", quick=Q(("churn", 60, 200), ("mixed", 30, 150), ("cache", 30, 150), ("relations", 30, 150)), thorough=Q(("churn", 1500, 600), ("mixed", 600, 500), ("reset", 400, 400))),
     "C03": dict(level="proof", quick=Q(("queries", 60, 200), ("cache", 30, 150), ("batch", 40, 200)), thorough=Q(("queries", 1500, 500), ("cache", 600, 400), ("batch", 400, 400), ("relations", 400, 400))),
     "C04": dict(level="proof", quick=Q(), thorough=Q()),
